@@ -1,155 +1,254 @@
 (* C13 — the StreamManager re-establishes exactly one working session after each loss.
-   Model/Manager.v: StreamManager.Run/connect/resume/Stop + Client.Connect/Resume as a
-   state machine over attempt outcomes and session fates.  What is runtime and NOT
-   proved here: the timing ("as soon as the server accepts again" is bounded by the
-   back-off, C19) and the goroutine in which the handler runs; both are exercised by
-   the harness against the real StreamManager and a scripted server. *)
+
+   Model/Manager.v: StreamManager.Run/connect/resume/Stop + Client.Connect/Resume + the
+   end-of-connection paths of Client.recv, as a state machine over what the network, the
+   server and the application's hooks do.  Sessions handed over, PostConnect calls,
+   receivers started, the connection each running receiver reads and the retry loops alive
+   are moved by separate decisions of the code; these decisions are a parameter of the
+   step function.  Every theorem below is about the code as it is ([repaired]); the
+   [_refuted] theorems show that the same statements fail for the code as it was before
+   each repair, so none of them restates a definition.
+   Model/ManagerSession.v + Model/Session.v: which outcome a connection is (classification
+   of errors, resumed or freshly bound).
+
+   What is runtime and NOT proved: the timing ("as soon as the server accepts again" is
+   bounded by the back-off, C19, and by Transport.Close waiting up to ConnectTimeout for
+   the peer's closing tag) and the go routine in which the handler runs; both are exercised
+   by the harness against the real StreamManager and scripted servers. *)
 From Coq Require Import List ZArith NArith Bool Lia.
-From XV Require Import Lib.Sx Model.Manager Proofs.ManagerP Model.Session Model.SessionSpec Proofs.SessionP Proofs.SessionSpecP.
+From XV Require Import Lib.Sx Model.Manager Proofs.ManagerP Model.Session Model.SessionSpec
+  Proofs.SessionSpecP Model.ManagerSession Proofs.ManagerSessionP.
 Import ListNotations.
 Open Scope nat_scope.
 
+(* ---- exactly one new session for each termination ---- *)
+
 (* After an abrupt drop, a graceful close or a stream error ending an established session,
-   any number of refused / transiently failing attempts (a connection cut in the middle of
-   a negotiation is one of them), then one successful attempt: exactly one more session
-   (resumed or fresh), one more PostConnect, one more receiver. *)
-Theorem C13_one_session_per_loss : forall s t fails r,
-  m_phase s = MUp -> (t = TDrop \/ t = TClose \/ t = TStreamError) -> forallb is_fail fails = true ->
-  let s' := m_run s (ETerm t :: map EAttempt fails ++ [EAttempt (AOk r)]) in
-  m_phase s' = MUp /\ m_sessions s' = S (m_sessions s) /\ m_post s' = S (m_post s) /\
-  m_recv s' = S (m_recv s) /\ m_resumed s' = (if r then S (m_resumed s) else m_resumed s).
-Proof.
-  intros s t fails r P Ht. apply one_session_per_loss; [exact P|].
-  destruct Ht as [->|[->| ->]]; reflexivity.
-Qed.
+   whatever happens in between without success -- refused and transiently failing attempts
+   (a connection cut in mid-negotiation is one), attempts whose PostResumeHook fails, the
+   reader left behind by a failed attempt meeting the end of its connection, the receiver
+   that reported the stream error coming back from the handler -- one successful attempt
+   gives: exactly one more session handed over, one more PostConnect, one more receiver,
+   the only running receiver reads the new connection, no retry loop is left.  The session
+   is the resumed one exactly when stream management is on, the client still holds its
+   state (held_after: a failure that drops the Session object loses it) and the server
+   grants the resumption. *)
+Theorem C13_one_session_per_loss : forall sm es0 t noise g,
+  let s := m_run repaired (m_init sm) es0 in
+  m_phase s = MUp -> is_loss t = true -> forallb is_noise noise = true ->
+  let s' := m_run repaired s (ETerm t :: noise ++ [EAttempt (AOk g)]) in
+  m_phase s' = MUp /\ m_loops s' = 0 /\ m_live s' = [m_conns s'] /\
+  m_sessions s' = S (m_sessions s) /\ m_post s' = S (m_post s) /\ m_recv s' = S (m_recv s) /\
+  m_resumed s' = (if m_sm s && held_after (m_sm s) (m_held s) noise && g
+                  then S (m_resumed s) else m_resumed s).
+Proof. exact one_session_per_loss_reach. Qed.
 
-(* In every reachable state, for every fault sequence: PostConnect ran once per
-   session and every session got its receiver. *)
-Theorem C13_post_connect_once_per_session : forall es,
-  let s := m_run m_init es in
-  m_post s = m_sessions s /\ m_recv s = m_sessions s /\ m_resumed s <= m_sessions s.
-Proof.
-  intros es. pose proof (run_inv es m_init init_inv) as (H1 & H2 & H3 & _). cbn zeta. auto.
-Qed.
+(* ... repeated k times, from the start of Run: after k such rounds there have been exactly
+   1 + k sessions, PostConnect calls and receivers *)
+Theorem C13_k_rounds : forall sm g0 rounds,
+  forallb round_ok rounds = true ->
+  let s := m_run repaired (m_init sm) (EAttempt (AOk g0) :: flat_map round_events rounds) in
+  m_phase s = MUp /\ m_sessions s = S (length rounds) /\ m_post s = S (length rounds) /\
+  m_recv s = S (length rounds) /\ m_live s = [m_conns s] /\ m_loops s = 0 /\ m_selfclosed s = 0.
+Proof. exact k_rounds. Qed.
 
-(* a permanent error ends the retry loop instead of retrying forever *)
-Theorem C13_permanent_stops : forall s es,
+(* In every reachable state, for every sequence of events: PostConnect ran once per session
+   handed over and every such session got its receiver; the client never ended a session on
+   its own, never created one after Run had returned. *)
+Theorem C13_post_connect_once_per_session : forall sm es,
+  let s := m_run repaired (m_init sm) es in
+  m_post s = m_sessions s /\ m_recv s = m_sessions s /\ m_selfclosed s = 0 /\ m_late s = 0 /\
+  m_resumed s <= m_sessions s /\ m_sessions s <= m_estab s /\ m_estab s <= m_conns s.
+Proof. exact reach_counts. Qed.
+
+(* at most one retry loop, and one exactly while the manager is reconnecting *)
+Theorem C13_at_most_one_retry_loop : forall sm es,
+  let s := m_run repaired (m_init sm) es in
+  m_loops s <= 1 /\ (m_loops s = 1 <-> m_phase s = MRetry).
+Proof. exact reach_one_loop. Qed.
+
+(* keeps receiving on the NEW connection: while a session is up exactly one receiver runs
+   and it reads the current connection; otherwise none runs *)
+Theorem C13_receiver_reads_current_connection : forall sm es,
+  let s := m_run repaired (m_init sm) es in
+  m_live s = match m_phase s with MUp => [m_conns s] | _ => [] end.
+Proof. exact reach_live. Qed.
+
+(* ---- a permanent error ends the retry loop; Stop ---- *)
+Theorem C13_permanent_stops : forall sm es0 d es,
+  let s := m_run repaired (m_init sm) es0 in
   m_phase s = MRetry ->
-  let s' := m_run s (EAttempt AFailPermanent :: es) in
-  m_sessions s' = m_sessions s /\ m_post s' = m_post s /\ (m_phase s' = MDead \/ m_phase s' = MReturned).
-Proof. exact permanent_stops. Qed.
+  let s' := m_run repaired s (EAttempt (AFail true d) :: es) in
+  m_sessions s' = m_sessions s /\ m_post s' = m_post s /\ m_recv s' = m_recv s /\
+  m_conns s' = S (m_conns s) /\ m_estab s' = m_estab s /\
+  (m_phase s' = MDead \/ m_phase s' = MReturned).
+Proof. exact permanent_stops_reach. Qed.
 
-(* Stop makes Run return *)
-Theorem C13_stop_returns : forall s,
-  m_phase s = MUp \/ m_phase s = MDead -> m_phase (m_step s (ETerm TStop)) = MReturned.
-Proof. exact stop_returns. Qed.
+(* Stop makes Run return: in every phase -- before the first connection is made, with a
+   session up, in the middle of the retry loop, after a permanent error *)
+Theorem C13_stop_returns : forall s, m_phase (m_step repaired s (ETerm TStop)) = MReturned.
+Proof. exact (stop_returns repaired). Qed.
 
-(* ---- how Client.connect's outcome (Model/Session.v) maps onto the attempt kinds ---- *)
-(* the classification resume() relies on: xerrors.As(err, &ConnError) && Permanent *)
-Definition attempt_of (r : Session.result) : attempt :=
-  match r with
-  | Ok => AOk false
-  | Err true true => AFailPermanent
-  | Err _ _ => AFailTransient
-  end.
+(* ... and is final: afterwards no connection is made, no session created, no PostConnect
+   run, no receiver started, whatever the network and the server do next *)
+Theorem C13_stop_is_final : forall s es,
+  let s0 := m_step repaired s (ETerm TStop) in
+  let s' := m_run repaired s0 es in
+  m_phase s' = MReturned /\ m_sessions s' = m_sessions s /\ m_post s' = m_post s /\
+  m_recv s' = m_recv s /\ m_conns s' = m_conns s /\ m_estab s' = m_estab s.
+Proof. exact stop_is_final. Qed.
+
+(* ---- the statements above are false for the code as it was ---- *)
+(* the reader of a failed attempt reported a loss (repaired in cccf687) *)
+Theorem C13_stale_reader_refuted :
+  let s := m_run with_stale (m_init false)
+             [EAttempt (AOk false); ETerm TDrop; EAttempt (AFail false false); EStaleReader;
+              EAttempt (AOk false); EAttempt (AOk false)] in
+  m_sessions s = 3 /\ m_post s = 3 /\ length (m_live s) = 2.
+Proof. exact stale_reader_refuted. Qed.
+(* after a stream error the old receiver closed the new session (repaired in 1d0dfdb) *)
+Theorem C13_old_receiver_refuted :
+  let s := m_run with_old_recv (m_init false)
+             [EAttempt (AOk false); ETerm TStreamError; EAttempt (AOk false); EOldReceiver;
+              EAttempt (AOk false); EAttempt (AOk false)] in
+  m_selfclosed s = 1 /\ m_sessions s = 4 /\ m_loops (m_run with_old_recv (m_init false)
+             [EAttempt (AOk false); ETerm TStreamError; EAttempt (AOk false); EOldReceiver]) = 2.
+Proof. exact old_receiver_refuted. Qed.
+(* a Resume whose hook failed started a receiver all the same (repaired in 383f5a3) *)
+Theorem C13_hook_start_refuted :
+  let s := m_run with_hook_start (m_init false)
+             [EAttempt (AOk false); ETerm TDrop; EAttempt (AHookFail false); EAttempt (AOk false)] in
+  m_recv s = 3 /\ m_sessions s = 2 /\ length (m_live s) = 2.
+Proof. exact hook_start_refuted. Qed.
+(* Stop did not tell the retry loop: a session and its PostConnect after Run had returned *)
+Theorem C13_stop_leak_refuted :
+  let s := m_run with_stop_leak (m_init false)
+             [EAttempt (AOk false); ETerm TDrop; EAttempt ARefused; ETerm TStop; EAttempt (AOk false)] in
+  m_phase s = MReturned /\ m_late s = 1 /\ m_sessions s = 2 /\ m_post s = 2.
+Proof. exact stop_leak_refuted. Qed.
+(* Resume started no receiver (repaired in 51fc33e): the second loss is noticed by nobody *)
+Theorem C13_no_receiver_refuted :
+  let s := m_run with_no_recv (m_init false)
+             [EAttempt (AOk false); ETerm TDrop; EAttempt (AOk false); ETerm TDrop; EAttempt (AOk false)] in
+  m_recv s = 1 /\ m_sessions s = 2 /\ m_loops s = 0 /\ m_phase s = MRetry.
+Proof. exact no_receiver_refuted. Qed.
+
+(* ---- which outcome a connection is (Model/Session.v connect) ---- *)
 
 (* a refused TCP connection is retried *)
 Theorem C13_dial_refused_transient : forall cfg tls p script,
-  attempt_of (res (connect cfg false tls p script)) = AFailTransient.
-Proof. reflexivity. Qed.
+  attempt_of false (connect cfg false tls p script) = ARefused /\ is_noise (EAttempt ARefused) = true.
+Proof. exact dial_refused_transient. Qed.
 
 (* TLS policy failure is permanent: cleartext not allowed and STARTTLS not offered, refused
-   (the server answers with something else than <proceed/>), or failing certificate
-   verification *)
+   (the server answers with something else than <proceed/>), or the handshake fails *)
 Theorem C13_tls_policy_permanent : forall cfg tls p id f rest,
   c_insecure cfg = false ->
   (f_tls f = TlsNone \/
    ((forall r, rest <> SProceed :: r) /\ is_cut rest = false) \/
    ((exists r, rest = SProceed :: r) /\ tls = false)) ->
-  attempt_of (res (connect cfg true tls p (SHeader id :: SFeatures f :: rest))) = AFailPermanent.
-Proof.
-  intros cfg tls p id f rest Hi H. unfold connect, res. cbn [negb read_header read_features]. rewrite Hi.
-  destruct (f_tls f) eqn:Et; [reflexivity| |].
-  all: destruct H as [H|[[H Hc]|[[r ->] ->]]]; try discriminate; try reflexivity.
-  all: destruct rest as [|[] r]; try discriminate Hc; try reflexivity.
-  all: exfalso; eapply H; reflexivity.
-Qed.
+  attempt_of true (connect cfg true tls p (SHeader id :: SFeatures f :: rest)) = AFail true true.
+Proof. exact tls_policy_permanent. Qed.
 
 (* A REFUSED handshake is such a policy failure, not a cut.  The server has answered
    <proceed/> and the TLS handshake that follows fails (tls = false): because the server
    refuses it with an alert (no protocol version or cipher suite in common with what the
    application allows, a client certificate demanded) or because the client refuses the
    server's certificate (other name, unknown authority, out of date).  Cleartext not being
-   allowed, the attempt is permanent and does not count as a failure to be retried --
-   whatever comes after <proceed/> in the script, also the end of the connection (a party
-   that refuses a handshake closes the connection, which does not turn the refusal into a
-   lost connection). *)
+   allowed, the attempt is permanent -- whatever comes after <proceed/> in the script, also
+   the end of the connection (a party that refuses a handshake closes the connection, which
+   does not turn the refusal into a lost connection). *)
 Theorem C13_refused_handshake_permanent : forall cfg p id f r,
   c_insecure cfg = false -> f_tls f <> TlsNone ->
-  attempt_of (res (connect cfg true false p (SHeader id :: SFeatures f :: SProceed :: r))) = AFailPermanent /\
-  is_fail AFailPermanent = false.
-Proof.
-  intros cfg p id f r Hi Ht. split; [|reflexivity].
-  unfold connect, res. cbn [negb read_header read_features read_proceed]. rewrite Hi.
-  destruct (f_tls f); [congruence| |]; reflexivity.
-Qed.
+  attempt_of true (connect cfg true false p (SHeader id :: SFeatures f :: SProceed :: r)) = AFail true true.
+Proof. exact refused_handshake_permanent. Qed.
 
-(* ... and after it the retry loop has ended: no session is ever created again, whatever
-   the network and the server do next, until Stop makes Run return *)
-Theorem C13_refused_handshake_ends_retry_loop : forall cfg p id f r s es,
-  c_insecure cfg = false -> f_tls f <> TlsNone -> m_phase s = MRetry ->
-  let a := attempt_of (res (connect cfg true false p (SHeader id :: SFeatures f :: SProceed :: r))) in
-  let s' := m_run s (EAttempt a :: es) in
-  m_sessions s' = m_sessions s /\ m_post s' = m_post s /\ (m_phase s' = MDead \/ m_phase s' = MReturned).
-Proof.
-  intros cfg p id f r s es Hi Ht P. cbn zeta.
-  destruct (C13_refused_handshake_permanent cfg p id f r Hi Ht) as [-> _].
-  exact (permanent_stops s es P).
-Qed.
+(* ... and after it the retry loop has ended: one connection (the refused one), no session
+   ever again, whatever the network and the server do next *)
+Theorem C13_refused_handshake_ends_retry_loop : forall cfg p id f r sm es0 es,
+  c_insecure cfg = false -> f_tls f <> TlsNone ->
+  let s := m_run repaired (m_init sm) es0 in
+  m_phase s = MRetry ->
+  let a := attempt_of true (connect cfg true false p (SHeader id :: SFeatures f :: SProceed :: r)) in
+  let s' := m_run repaired s (EAttempt a :: es) in
+  m_sessions s' = m_sessions s /\ m_post s' = m_post s /\ m_recv s' = m_recv s /\
+  m_conns s' = S (m_conns s) /\ m_estab s' = m_estab s /\
+  (m_phase s' = MDead \/ m_phase s' = MReturned).
+Proof. exact refused_handshake_ends_retry_loop. Qed.
 
-(* ... and a connection that is cut in the middle of the negotiation is not: after the
-   server's stream header and before its features; or, TLS being mandatory, after the
-   client's <starttls/> and before <proceed/>.  The retry loop goes on (is_fail). *)
+(* a connection that is cut in the middle of the negotiation is not permanent (it is noise
+   in the sense of C13_one_session_per_loss): after the server's stream header and before its
+   features; or after the client's <starttls/> and before <proceed/>.  The Session object is
+   gone, and the resumption state with it, when TLS is mandatory or no features were read. *)
 Theorem C13_cut_in_negotiation_transient : forall cfg tls p id f rest,
   is_cut rest = true ->
-  attempt_of (res (connect cfg true tls p (SHeader id :: rest))) = AFailTransient /\
+  attempt_of true (connect cfg true tls p (SHeader id :: rest)) = AFail false true /\
   (f_tls f <> TlsNone ->
-   attempt_of (res (connect cfg true tls p (SHeader id :: SFeatures f :: rest))) = AFailTransient) /\
-  is_fail AFailTransient = true.
-Proof.
-  intros cfg tls p id f rest Hc. repeat split.
-  - unfold connect, res. cbn [negb read_header].
-    destruct rest as [|[] r]; try discriminate Hc; reflexivity.
-  - intros Ht. unfold connect, res. cbn [negb read_header read_features].
-    destruct (f_tls f) eqn:Et; [congruence| |].
-    all: destruct rest as [|[] r]; try discriminate Hc; cbn [read_proceed]; destruct (c_insecure cfg); reflexivity.
-Qed.
+   attempt_of true (connect cfg true tls p (SHeader id :: SFeatures f :: rest)) = AFail false (negb (c_insecure cfg))) /\
+  is_noise (EAttempt (AFail false true)) = true.
+Proof. exact cut_in_negotiation_transient. Qed.
 
-(* rejected credentials are permanent (here: no STARTTLS offered, cleartext allowed;
-   after a TLS upgrade the same step function runs) *)
-Theorem C13_rejected_credentials_permanent : forall cfg chan p f rest sn m,
+(* rejected credentials are permanent (cleartext allowed, no STARTTLS offered; after a TLS
+   upgrade the same step runs); the Session object stays *)
+Theorem C13_rejected_credentials_permanent : forall cfg tls p id f rest m,
+  c_insecure cfg = true -> f_tls f = TlsNone ->
   choose_mech (c_mechs cfg) (f_mechs f) = Some m -> implemented m = true ->
-  res (step_auth cfg chan p f (SSaslFailure :: rest) sn) = Err true true /\
-  attempt_of (res (step_auth cfg chan p f (SSaslFailure :: rest) sn)) = AFailPermanent.
-Proof.
-  intros cfg chan p f rest sn m Hm Hi. unfold step_auth, res. rewrite Hm, Hi. split; reflexivity.
-Qed.
+  attempt_of true (connect cfg true tls p (SHeader id :: SFeatures f :: SSaslFailure :: rest)) = AFail true false.
+Proof. exact rejected_credentials_permanent. Qed.
 
+(* ---- resumed when possible, freshly bound otherwise ---- *)
+(* the step NewSession takes once authenticated: the server offers stream management, the
+   client holds an id and the server confirms it: no bind request, the state held is kept *)
+Theorem C13_resumed_when_possible : forall cfg c p f rest sn,
+  f_sm f = true -> has_id p = true ->
+  let x := step_resume cfg c p f (SResumed (p_sm_id p) :: rest) sn in
+  res x = Ok /\ resumed_of (outs x) = true /\ pst x = p.
+Proof. exact resumed_when_possible. Qed.
+(* the server refuses the resumption, or nothing is held, or the stream has no stream
+   management: a bind request goes out, the session is not the resumed one *)
+Theorem C13_fresh_otherwise : forall cfg c p f s sn,
+  ((f_sm f = true /\ has_id p = true /\ exists s1, s = SFailed :: s1) \/ has_id p = false \/ f_sm f = false) ->
+  resumed_of (outs (step_resume cfg c p f s sn)) = false /\
+  (res (step_resume cfg c p f s sn) = Ok -> existsb req_is_bind (reqs (outs (step_resume cfg c p f s sn))) = true).
+Proof. exact fresh_otherwise. Qed.
+(* and the manager model counts a session as resumed under exactly these conditions *)
+Theorem C13_manager_resumes : forall s g,
+  resumes s g = true <-> m_sm s = true /\ m_held s = true /\ g = true.
+Proof. exact manager_resumes. Qed.
+
+(* the hypotheses are satisfiable by non-trivial values *)
 Example C13_example :
-  let s := m_run m_init [EAttempt (AOk false); ETerm TDrop; EAttempt ARefused; EAttempt ARefused;
-                         EAttempt (AOk true); ETerm TClose; EAttempt AFailTransient; EAttempt (AOk false);
-                         ETerm TStreamError; EAttempt AFailTransient; EAttempt ARefused; EAttempt (AOk false);
-                         ETerm TDrop; EAttempt AFailPermanent; EAttempt (AOk false); ETerm TStop] in
-  (m_phase s, m_sessions s, m_resumed s, m_post s, m_recv s, m_failed s) = (MReturned, 4, 1, 4, 4, 5).
+  let s := m_run repaired (m_init true)
+             [EAttempt (AOk false); ETerm TDrop; EAttempt ARefused; EAttempt ARefused;
+              EAttempt (AOk true); ETerm TClose; EAttempt (AFail false true); EStaleReader; EAttempt (AOk true);
+              ETerm TStreamError; EAttempt (AHookFail false); EAttempt ARefused; EOldReceiver; EAttempt (AOk true);
+              ETerm TDrop; EAttempt (AFail true false); EAttempt (AOk false); ETerm TStop; EAttempt (AOk false)] in
+  (m_phase s, m_sessions s, m_resumed s, m_post s, m_recv s, m_conns s, m_estab s, m_failed s)
+  = (MReturned, 4, 2, 4, 4, 7, 5, 6).
+Proof. reflexivity. Qed.
+Example C13_rounds_example :
+  forallb round_ok [(TDrop, [EAttempt ARefused; EStaleReader], true); (TStreamError, [EOldReceiver], false)] = true.
 Proof. reflexivity. Qed.
 
 Print Assumptions C13_one_session_per_loss.
+Print Assumptions C13_k_rounds.
 Print Assumptions C13_post_connect_once_per_session.
+Print Assumptions C13_at_most_one_retry_loop.
+Print Assumptions C13_receiver_reads_current_connection.
 Print Assumptions C13_permanent_stops.
 Print Assumptions C13_stop_returns.
+Print Assumptions C13_stop_is_final.
+Print Assumptions C13_stale_reader_refuted.
+Print Assumptions C13_old_receiver_refuted.
+Print Assumptions C13_hook_start_refuted.
+Print Assumptions C13_stop_leak_refuted.
+Print Assumptions C13_no_receiver_refuted.
 Print Assumptions C13_dial_refused_transient.
 Print Assumptions C13_tls_policy_permanent.
 Print Assumptions C13_refused_handshake_permanent.
 Print Assumptions C13_refused_handshake_ends_retry_loop.
 Print Assumptions C13_cut_in_negotiation_transient.
 Print Assumptions C13_rejected_credentials_permanent.
+Print Assumptions C13_resumed_when_possible.
+Print Assumptions C13_fresh_otherwise.
+Print Assumptions C13_manager_resumes.
